@@ -13,6 +13,9 @@ refactoring introduces, so that every rule sees one form:
                                                                        of a return / assignment value)
   N13 a call of a small private module-level helper whose body is assignments / ifs / returns (no loop, no raise) is replaced by
       the helper's result expression with the arguments in place of the parameters
+  N14 a nested one-expression function / a lambda bound once to a local name is put in place at its uses (g(a, b) -> its body with the
+      arguments; a bare g -> the lambda)
+  N15 name = a.b.c bound once (a and the attributes b, c not stored to in the function) -> every read of name is a.b.c
   N2  membership in a display of alternatives
           e in (a, b, c)                ->   e == a or e == b or e == c
           e not in (a, b)               ->   e != a and e != b
@@ -33,6 +36,7 @@ refactoring introduces, so that every rule sees one form:
       return f(x)
   N9  xs = [E for ..]; S(xs)           ->     S([E for ..])      xs a single-use local, S the next statement
       x = a.b; return S(x)             ->     return S(a.b)
+      x = g(..); return Cls(x, ..)     ->     return Cls(g(..), ..)     (Cls a class name, cls or <obj>.__class__)
       (operands of S evaluated before xs are evaluated after it instead: no rule depends on the order of pure operands)
   N10 [E(t) for t in (a, b, c)]          ->    [E(a), E(b), E(c)]
   N11 if not c: A                            if c: B
@@ -213,6 +217,8 @@ class _Normalise(ast.NodeTransformer):
                 tg = [b.target] if isinstance(b, (ast.For, ast.AsyncFor)) else \
                     [g.target for g in b.generators] if isinstance(b, (ast.ListComp, ast.SetComp, ast.DictComp, ast.GeneratorExp)) else []
                 bound = {x.id for t in tg for x in ast.walk(t) if isinstance(x, ast.Name)}
+                if isinstance(b, (ast.Lambda, ast.FunctionDef)) and b is not scope:
+                    bound = {a.arg for a in b.args.args + b.args.kwonlyargs + b.args.posonlyargs}
                 if bound & tnames:
                     for x in ast.walk(b):
                         if isinstance(x, ast.Name) and x.id in bound & tnames:
@@ -302,6 +308,13 @@ class _Normalise(ast.NodeTransformer):
     # ---- N8b / N9b  callee aliases:  if c: f = A            if c: return A(x)
     #                                 else: f = B      ->     else: return B(x)
     #                                 return f(x)
+    @staticmethod
+    def _is_class_ref(e):
+        """a constructor reference: a capitalised name, cls, or <x>.__class__"""
+        if isinstance(e, ast.Name):
+            return e.id == 'cls' or (e.id[:1].isupper() and not e.id.isupper())
+        return isinstance(e, ast.Attribute) and e.attr == '__class__'
+
     @staticmethod
     def _is_ref(e):
         while isinstance(e, ast.Attribute):
@@ -395,7 +408,10 @@ class _Normalise(ast.NodeTransformer):
             st = stmts[i]
             nxt = stmts[i + 1] if i + 1 < len(stmts) else None
             if isinstance(st, ast.Assign) and len(st.targets) == 1 and isinstance(st.targets[0], ast.Name) \
-                    and (isinstance(st.value, ast.ListComp) or (isinstance(nxt, ast.Return) and self._is_ref(st.value))) \
+                    and (isinstance(st.value, ast.ListComp) or (isinstance(nxt, ast.Return) and self._is_ref(st.value)) or
+                         (isinstance(nxt, ast.Return) and isinstance(st.value, ast.Call) and isinstance(nxt.value, ast.Call)
+                          and self._is_class_ref(nxt.value.func) and not _refs(st.value, st.targets[0].id)
+                          and any(isinstance(a, ast.Name) and a.id == st.targets[0].id for a in nxt.value.args))) \
                     and isinstance(nxt, (ast.Return, ast.Assign, ast.Expr)):
                 name = st.targets[0].id
                 uses = [n for n in ast.walk(nxt) if isinstance(n, ast.Name) and n.id == name]
@@ -547,6 +563,153 @@ class _SubstMany(ast.NodeTransformer):
         return n
 
 
+# ---- N14 / N15  function-level copy propagation of references and of local one-expression functions
+def _own_nodes(fn):
+    """nodes of fn's own body, not descending into nested function / class definitions (lambdas are descended)"""
+    stack = list(fn.body)
+    while stack:
+        n = stack.pop()
+        yield n
+        for ch in ast.iter_child_nodes(n):
+            if isinstance(ch, (ast.FunctionDef, ast.AsyncFunctionDef, ast.ClassDef)):
+                continue
+            stack.append(ch)
+
+
+def _is_ref_expr(e):
+    while isinstance(e, ast.Attribute):
+        e = e.value
+    return isinstance(e, ast.Name)
+
+
+def _store_counts(fn):
+    cnt = {}
+    own_args = set(map(id, fn.args.args + fn.args.kwonlyargs + fn.args.posonlyargs + ([fn.args.vararg] if fn.args.vararg else []) + ([fn.args.kwarg] if fn.args.kwarg else [])))
+    for a in fn.args.args + fn.args.kwonlyargs + fn.args.posonlyargs + ([fn.args.vararg] if fn.args.vararg else []) + ([fn.args.kwarg] if fn.args.kwarg else []):
+        cnt[a.arg] = cnt.get(a.arg, 0) + 1
+    for n in ast.walk(fn):
+        if n is fn:
+            continue
+        if isinstance(n, ast.Name) and isinstance(n.ctx, (ast.Store, ast.Del)):
+            cnt[n.id] = cnt.get(n.id, 0) + 1
+        elif isinstance(n, (ast.FunctionDef, ast.AsyncFunctionDef, ast.ClassDef)):
+            cnt[n.name] = cnt.get(n.name, 0) + 1
+        elif isinstance(n, (ast.Global, ast.Nonlocal)):
+            for nm in n.names:
+                cnt[nm] = cnt.get(nm, 0) + 5
+        elif isinstance(n, ast.arg) and id(n) not in own_args:
+            cnt[n.arg] = cnt.get(n.arg, 0) + 1          # parameter of a nested function / lambda: another binding of that name
+    return cnt
+
+
+def _propagate_refs(fn):
+    """N15: `name = a.b.c` (the only binding of name in the function; a never rebound; no store to an attribute called b / c in the
+    function) -> every later read of name is a.b.c"""
+    cnt = _store_counts(fn)
+    attr_stores = {n.attr for n in ast.walk(fn) if isinstance(n, ast.Attribute) and isinstance(n.ctx, (ast.Store, ast.Del))}
+    mutated = set()
+    for n in ast.walk(fn):
+        if isinstance(n, ast.AugAssign):
+            for x in ast.walk(n.target):
+                if isinstance(x, ast.Name):
+                    mutated.add(x.id)
+        if isinstance(n, (ast.Subscript, ast.Attribute)) and isinstance(n.ctx, (ast.Store, ast.Del)):
+            b = n
+            while isinstance(b, (ast.Subscript, ast.Attribute)):
+                b = b.value
+            if isinstance(b, ast.Name):
+                mutated.add(b.id)
+    env = {}
+    for st in _own_nodes(fn):
+        if isinstance(st, ast.Assign) and len(st.targets) == 1 and isinstance(st.targets[0], ast.Name) and isinstance(st.value, ast.Attribute) \
+                and _is_ref_expr(st.value):
+            name = st.targets[0].id
+            base = st.value
+            attrs = []
+            while isinstance(base, ast.Attribute):
+                attrs.append(base.attr)
+                base = base.value
+            if cnt.get(name, 0) != 1 or name in mutated or cnt.get(base.id, 0) > 1 or base.id == name or set(attrs) & attr_stores:
+                continue
+            # a nested function that reads the name keeps the binding as it is
+            if any(isinstance(x, ast.Name) and x.id == name for d in ast.walk(fn) if isinstance(d, (ast.FunctionDef, ast.AsyncFunctionDef)) and d is not fn
+                   for x in ast.walk(d)):
+                continue
+            env[name] = st.value
+    if env:
+        _SubstMany(env).visit(fn)
+    return fn
+
+
+def _inline_local_functions(fn):
+    """N14: a nested `def g(p, q): return E` / `g = lambda p, q: E` bound once, whose free names are stable in the enclosing function,
+    is put in place: g(a, b) -> E[p := a, q := b], a bare g -> lambda p, q: E"""
+    import copy
+    cnt = _store_counts(fn)
+    cands = {}
+    for st in _own_nodes(fn):
+        pass
+    for blk_owner in ast.walk(fn):
+        for fld in ('body', 'orelse', 'finalbody'):
+            stmts = getattr(blk_owner, fld, None)
+            if not isinstance(stmts, list):
+                continue
+            for st in stmts:
+                g = None
+                if isinstance(st, ast.FunctionDef) and st is not fn and not st.decorator_list:
+                    body = [b for b in st.body if not (isinstance(b, ast.Expr) and isinstance(b.value, ast.Constant))]
+                    if len(body) == 1 and isinstance(body[0], ast.Return) and body[0].value is not None:
+                        g = (st.name, st.args, body[0].value, st)
+                elif isinstance(st, ast.Assign) and len(st.targets) == 1 and isinstance(st.targets[0], ast.Name) and isinstance(st.value, ast.Lambda):
+                    g = (st.targets[0].id, st.value.args, st.value.body, st)
+                if g is None or cnt.get(g[0], 0) != 1:
+                    continue
+                name, args, body, node = g
+                if args.vararg or args.kwarg or args.kwonlyargs or args.posonlyargs or args.defaults:
+                    continue
+                params = [a.arg for a in args.args]
+                if any(isinstance(x, (ast.Lambda, ast.ListComp, ast.GeneratorExp, ast.SetComp, ast.DictComp, ast.NamedExpr, ast.Yield, ast.Await)) for x in ast.walk(body)):
+                    continue
+                free = {x.id for x in ast.walk(body) if isinstance(x, ast.Name)} - set(params)
+                if name in free or any(cnt.get(v, 0) > 1 for v in free):
+                    continue
+                cands[name] = (params, body, node)
+    if not cands:
+        return fn
+
+    class Inl(ast.NodeTransformer):
+        def visit_FunctionDef(self, n):
+            if n is not fn and any(n is c[2] for c in cands.values()):
+                return n
+            return self.generic_visit(n)
+
+        def visit_Call(self, c):
+            self.generic_visit(c)
+            if isinstance(c.func, ast.Lambda) and getattr(c.func, '_inlined', False) and not c.keywords \
+                    and len(c.args) == len(c.func.args.args) and not any(isinstance(a, ast.Starred) for a in c.args):
+                env = {a.arg: v for a, v in zip(c.func.args.args, c.args)}
+                return _SubstMany(env).visit(copy.deepcopy(c.func.body))
+            return c
+
+        def visit_Name(self, n):
+            if isinstance(n.ctx, ast.Load) and n.id in cands:
+                params, body, _ = cands[n.id]
+                lam = ast.Lambda(args=ast.arguments(posonlyargs=[], args=[ast.arg(arg=p_) for p_ in params], kwonlyargs=[], kw_defaults=[], defaults=[]),
+                                 body=copy.deepcopy(body))
+                lam._inlined = True
+                ast.copy_location(lam, n)
+                return lam
+            return n
+
+        def visit_Assign(self, st):
+            if any(st is c[2] for c in cands.values()):
+                return st
+            return self.generic_visit(st)
+    Inl().visit(fn)
+    ast.fix_missing_locations(fn)
+    return fn
+
+
 def _exits(body):
     if not body:
         return False
@@ -581,6 +744,9 @@ def normalise(tree):
     if os.environ.get('VERIF_NO_NORMALIZE') == '1':
         return tree
     tree = _inline_helpers(tree)
+    for fn in [n for n in ast.walk(tree) if isinstance(n, ast.FunctionDef)]:
+        _propagate_refs(fn)
+        _inline_local_functions(fn)
     nz = _Normalise()
     tree = nz.visit(tree)
     nz._blocks(tree, None)
